@@ -547,6 +547,9 @@ func keptInField(ev ssa.Value) *ssa.FieldAddr {
 		for _, r := range *refs {
 			if st, ok := r.(*ssa.Store); ok && st.Val == a {
 				if fa, ok := st.Addr.(*ssa.FieldAddr); ok {
+					if la, isLocal := fa.X.(*ssa.Alloc); isLocal && !la.Heap {
+						continue // a field of a local copy: not kept
+					}
 					return fa
 				}
 			}
